@@ -949,6 +949,20 @@ pub mod verif {
         }
     }
 
+    /// "good" | "bad" | "missing" under the server's live (current, previous) cookie keys.
+    pub async fn cookie_status_live(msg: &super::DnsMessage) -> &'static str {
+        match msg.validate_cookie().await {
+            super::CookieStatus::Good => "good",
+            super::CookieStatus::Bad => "bad",
+            super::CookieStatus::Missing => "missing",
+        }
+    }
+
+    /// The server cookie the running server would put into a reply to `msg` right now.
+    pub async fn server_cookie_live(msg: &super::DnsMessage, client: &[u8]) -> Vec<u8> {
+        msg.calculate_current_cookie(client).await.to_vec()
+    }
+
     /// The server cookie this server issues to `msg`'s client for `client` under `key`.
     pub fn server_cookie(msg: &super::DnsMessage, client: &[u8], key: &[u8]) -> Vec<u8> {
         use hmac::Mac as _;
